@@ -129,6 +129,19 @@ impl Sys {
         self.evaluate_one(rest, r, budget)
     }
 
+    /// Evaluate several REPL inputs in sequence (bindings persist); the value of the last one counts.
+    pub fn evaluate_chunks(&mut self, chunks: &[String], r: &mut Rng, budget: u64) -> Eval {
+        let mut last = Eval::NoValue;
+        for c in chunks {
+            last = self.evaluate(c, r, budget);
+            match last {
+                Eval::Value(..) | Eval::NoValue => {}
+                _ => return last,
+            }
+        }
+        last
+    }
+
     fn evaluate_one(&mut self, src: &str, r: &mut Rng, budget: u64) -> Eval {
         let tid = match self.env.request_process_types() {
             Ok(t) => t,
